@@ -280,15 +280,6 @@ Proof.
     split; [reflexivity|]. split; [exact E|]. exists a. split; [reflexivity|]. split; assumption.
 Qed.
 
-Lemma find_last_name n : forall l i j s, find_last_from i n l = Some (j, s) -> s_name s = n.
-Proof.
-  induction l as [|x r IH]; intros i j s H; [discriminate|].
-  cbn [find_last_from] in H. destruct (find_last_from (S i) n r) as [y|] eqn:Er.
-  - inversion H; subst. apply (IH (S i) j s Er).
-  - destruct (bytes_eqb (s_name x) n) eqn:Ex; [|discriminate].
-    inversion H; subst. apply bytes_eqb_eq. exact Ex.
-Qed.
-
 Lemma plain_no_z n : is_prefix p_debug n = true -> forall l i,
   forallb plain_name l = true -> find_last_from i (zname n) l = None.
 Proof.
